@@ -161,6 +161,9 @@ fn predicates(cfg: &Cfg, events: &[Value], pre: &Value, act: &Value, so_from_sta
         }
     }
     let locks = act["locks"].as_str().unwrap_or("");
+    if locks.contains('P') && act.get("panic").is_none() {
+        v.push(("C03/poison".into(), "a closure unwound while holding the instance state lock (poisoned shared state)".into()));
+    }
     if locks.contains('N') && act.get("panic").is_none() {
         v.push(("C17".into(), "nested acquisition of the instance state lock".into()));
     }
